@@ -74,6 +74,8 @@ mod tidy_tests;
 pub(crate) mod timing;
 pub(crate) mod validation;
 pub(crate) mod value_flags;
+#[cfg(wild_verif)]
+pub mod verif;
 pub(crate) mod verification;
 pub(crate) mod version_script;
 
@@ -112,6 +114,8 @@ pub fn run(mut args: Args) -> error::Result {
     let thread_pool = args.common_mut().activate_thread_pool()?;
     let linker = Linker::new();
     linker.run(&args, &thread_pool)?;
+    #[cfg(wild_verif)]
+    crate::verif::point("link-returned")?;
     drop(linker);
     timing::finalise_perfetto_trace()?;
     Ok(())
@@ -225,7 +229,13 @@ impl Linker {
         // changed. We want inputs-changed errors to take precedence over all other errors.
         let result = self.load_inputs_and_link::<P, A>(&mut file_loader, args);
 
+        #[cfg(wild_verif)]
+        crate::verif::point_noerr("before-verify-inputs");
+
         file_loader.verify_inputs_unchanged()?;
+
+        #[cfg(wild_verif)]
+        crate::verif::point_noerr("after-verify-inputs");
 
         // Write the dependency file and inputs trace after successful linking.
         if result.is_ok() {
@@ -262,6 +272,9 @@ impl Linker {
 
         let loaded = loaded?;
 
+        #[cfg(wild_verif)]
+        crate::verif::point("inputs-loaded")?;
+
         let output_kind = OutputKind::new(args, file_loader);
 
         let mut output = file_writer::Output::new(args, output_kind);
@@ -283,6 +296,9 @@ impl Linker {
             loaded,
         )?;
 
+        #[cfg(wild_verif)]
+        crate::verif::point("symbols-loaded")?;
+
         // TODO: Doing this here means that we can't wrap symbols produced by the linker plugin.
         // Moving it earlier or later however requires some rethought as to how this works.
         symbol_db.apply_wrapped_symbol_overrides();
@@ -291,6 +307,9 @@ impl Linker {
 
         resolver
             .resolve_symbols_and_select_archive_entries(&mut symbol_db, &mut per_symbol_flags)?;
+
+        #[cfg(wild_verif)]
+        crate::verif::point("symbols-resolved")?;
 
         // Now that we know which archive entries are being loaded, we can resolve alternative
         // symbol definitions.
@@ -329,6 +348,9 @@ impl Linker {
             &layout_rules,
         )?;
 
+        #[cfg(wild_verif)]
+        crate::verif::point("sections-resolved")?;
+
         let layout = layout::compute::<P, A>(
             symbol_db,
             per_symbol_flags,
@@ -337,7 +359,13 @@ impl Linker {
             &mut output,
         )?;
 
+        #[cfg(wild_verif)]
+        crate::verif::point("layout-done")?;
+
         P::write_output_file::<A>(&output, &layout)?;
+
+        #[cfg(wild_verif)]
+        crate::verif::point("output-written")?;
         diff::maybe_diff()?;
 
         // We've finished linking. We consider everything from this point onwards as shutdown.
